@@ -288,7 +288,7 @@ Section PvInd.
   Hypothesis HList : forall l, Forall P l -> P (PList l).
   Hypothesis HTuple : forall l, Forall P l -> P (PTuple l).
   Hypothesis HDict : forall l, Forall (fun kv => P (snd kv)) l -> P (PDict l).
-  Hypothesis HOther : P POther.
+  Hypothesis HOther : forall e, P (POther e).
   Fixpoint pv_ind' (v : pv) : P v :=
     match v with
     | PNone => HNone | PBool b => HBool b | PInt z => HInt z | PFloat r => HFloat r | PStr s => HStr s
@@ -301,7 +301,7 @@ Section PvInd.
                              | [] => Forall_nil _
                              | kv :: r => Forall_cons kv (pv_ind' (snd kv)) (go r)
                              end) l)
-    | POther => HOther
+    | POther e => HOther e
     end.
 End PvInd.
 
@@ -344,7 +344,7 @@ Proof. induction 1 as [|x l Hx Hl IH]; [reflexivity|]. cbn [omapl]. now rewrite 
 (* accepted values come back unchanged *)
 Theorem strict_values_roundtrip : forall v, wf_pv v -> check_value v = true -> json_image v = Some v.
 Proof.
-  induction v as [| | | | |l IH|l IH|l IH|] using pv_ind'; intros Hw Hc; try reflexivity; try discriminate.
+  induction v as [| | | | |l IH|l IH|l IH|e] using pv_ind'; intros Hw Hc; try reflexivity; try discriminate.
   - cbn [json_image]. rewrite omapl_id; [reflexivity|].
     cbn [check_value] in Hc. cbn [wf_pv] in Hw.
     induction IH as [|x l Hx Hl IHl]; constructor.
@@ -370,7 +370,7 @@ Qed.
 (* rejected values: the top-level shapes the check refuses are exactly those that do not survive *)
 Theorem rejected_tuple l : check_value (PTuple l) = false /\ json_image (PTuple l) <> Some (PTuple l).
 Proof. split; [reflexivity|]. cbn [json_image]. destruct (omapl json_image l); discriminate. Qed.
-Theorem rejected_other : check_value POther = false /\ json_image POther = None.
+Theorem rejected_other e : check_value (POther e) = false /\ json_image (POther e) = None.
 Proof. split; reflexivity. Qed.
 Lemma image_keys_str : forall l l',
   (fix go (l0 : list (pkey * pv)) : option (list (pkey * pv)) :=
